@@ -94,6 +94,25 @@ pub fn run(tr: &mut Tr, seed: u64, histories: usize, len: usize) -> (u64, u64) {
         if !tw.dead {
             tw.close(tr, "flush");
         }
+        // copies that fail half way (a strict source shorter than n): the counters still say what was moved
+        for dir_to in [true, false] {
+            tr.reset();
+            let short: Vec<u8> = img.iter().cloned().chain(std::iter::repeat(0xA5)).take(8 * rng.random_range(1..=4usize)).collect();
+            let rw = READER_WORDS[rng.random_range(0..4)];
+            let rcfg = RCfg { le, w: rw, kind: "buf", backend: "strict", wrap: ["count", "none"][rng.random_range(0..2)] };
+            let mut rd = TRd::new(tr, &rcfg, &short);
+            let mut tw2 = TW::new(tr, &WCfg { le, w: ww, backend: "vec", wrap: "count" }, 0);
+            tw2.write_bits(tr, 5, rng.random_range(3..9));
+            rd.read_bits(tr, rng.random_range(0..20));
+            let n = 8 * short.len() as u64 + rng.random_range(1..100);
+            if dir_to {
+                rd.copy_to(tr, &mut tw2, n);
+            } else {
+                rd.copy_from(tr, &mut tw2, n);
+            }
+            tests += 1;
+            rd.drop_obj(tr);
+        }
         let _ = Item::Flush;
     }
     (tests, distinct.len() as u64)
